@@ -1676,19 +1676,23 @@ impl FixtureDatabase {
 
             // Check each dependency
             for dep_name in &fixture_def.dependencies {
-                // Find the dependency's definition (use resolution logic to get correct one)
-                if let Some(dep_definitions) = self.definitions.get(dep_name) {
-                    // Find best matching definition for the dependency
-                    // Use the first one (most local) - matches cycle detection behavior
-                    if let Some(dep_def) = dep_definitions.first() {
-                        // Check if scope mismatch: fixture has broader scope than dependency
-                        // FixtureScope is ordered: Function < Class < Module < Package < Session
-                        if fixture_def.scope > dep_def.scope {
-                            mismatches.push(ScopeMismatch {
-                                fixture: fixture_def.clone(),
-                                dependency: dep_def.clone(),
-                            });
-                        }
+                // Find the dependency's definition the way pytest resolves it from this fixture's
+                // file (same file > conftest hierarchy > plugins > third-party). A same-named
+                // parameter (override pattern) refers to the next definition outward, never to the
+                // fixture itself. Unrelated same-named definitions elsewhere must not matter.
+                let dep_def = if dep_name == &fixture_def.name {
+                    self.find_closest_definition_excluding(file_path, dep_name, Some(fixture_def))
+                } else {
+                    self.find_closest_definition(file_path, dep_name)
+                };
+                if let Some(dep_def) = dep_def {
+                    // Check if scope mismatch: fixture has broader scope than dependency
+                    // FixtureScope is ordered: Function < Class < Module < Package < Session
+                    if fixture_def.scope > dep_def.scope {
+                        mismatches.push(ScopeMismatch {
+                            fixture: fixture_def.clone(),
+                            dependency: dep_def,
+                        });
                     }
                 }
             }
